@@ -229,6 +229,13 @@ func init() {
 			return ret(f, x, BigV{T: v.T})
 		case Sym:
 			return ret(f, x, BigV{T: v.S})
+		case StructV:
+			// an sdk.Coin argument: its amount
+			if len(v.F) == 2 {
+				if b, ok := v.F[1].(BigV); ok && !b.Nil {
+					return ret(f, x, BigV{T: b.T})
+				}
+			}
 		}
 		panic("SpyArgZ: argument is not numeric")
 	})
@@ -247,6 +254,12 @@ func init() {
 			return ret(f, x, BigV{T: v.T})
 		case Sym:
 			return ret(f, x, BigV{T: v.S})
+		case StructV:
+			if len(v.F) == 2 { // an sdk.Coin result: its amount
+				if b, ok := v.F[1].(BigV); ok && !b.Nil {
+					return ret(f, x, BigV{T: b.T})
+				}
+			}
 		}
 		panic("SpyResZ: result is not numeric")
 	})
